@@ -73,16 +73,28 @@ where
     F: Fn(Lifecycle) -> Option<NumberOfAllowedInvocations> + Clone,
 {
     // If the dependency graph is not acyclic, we can't build a call graph—we'd get stuck in an infinite loop.
-    if DependencyGraph::build(
+    let dependency_graph = DependencyGraph::build(
         root_component_id,
         computation_db,
         component_db,
         constructible_db,
         error_observer_ids,
         lifecycle2n_allowed_invocations.clone(),
-    )
-    .assert_acyclic(component_db, computation_db, diagnostics)
-    .is_err()
+    );
+    if dependency_graph
+        .assert_acyclic(component_db, computation_db, diagnostics)
+        .is_err()
+    {
+        return Err(());
+    }
+    // An error handler can't ask for the value that the failed component didn't build.
+    if dependency_graph
+        .assert_error_handlers_do_not_need_the_missing_output(
+            component_db,
+            computation_db,
+            diagnostics,
+        )
+        .is_err()
     {
         return Err(());
     }
